@@ -10,9 +10,14 @@ except (ValueError, OSError):
 
 ROOT = os.path.dirname(os.path.dirname(os.path.abspath(__file__)))
 COQ = os.path.join(ROOT, "coq")
-GEN = os.path.join(COQ, "gen")
 HARNESS = os.path.join(ROOT, "harness")
 REPO = os.environ.get("VERIF_REPO", "/repo")
+# Runs against a scratch worktree (seeded changes, VERIF_REPO=...) use their own generated-files
+# directory and never write evidence/: several of them can run at once and the committed evidence
+# always comes from /repo itself.
+ALT = REPO != "/repo"
+GENNAME = "gen" if not ALT else "gen_" + hashlib.sha1(REPO.encode()).hexdigest()[:8]
+GEN = os.path.join(COQ, GENNAME)
 
 GOENV = dict(os.environ, GOFLAGS="-mod=mod", GOPROXY="off", GOSUMDB="off", GOTOOLCHAIN="local",
              CGO_ENABLED=os.environ.get("CGO_ENABLED", "0"))
@@ -126,7 +131,7 @@ def run_translator(cfg, log):
     g2c = os.path.join(HARNESS, "bin", "go2coq")
     if not os.path.exists(g2c):
         sh(["go", "build", "-o", g2c, "."], cwd=os.path.join(ROOT, "tools", "go2coq"), env=GOENV, timeout=600)
-    rc, out = sh(tr["cmd"].replace("$REPO", REPO), cwd=ROOT, env=GOENV, timeout=tr.get("timeout_s", 600))
+    rc, out = sh(tr["cmd"].replace("$REPO", REPO).replace("coq/gen/", "coq/%s/" % GENNAME), cwd=ROOT, env=GOENV, timeout=tr.get("timeout_s", 600))
     log.append(("translator", rc, out[-6000:]))
     if rc != 0:
         return 0, [{"name": "translator", "detail": out[-800:]}], {"translator_output": out[-2000:]}
@@ -134,6 +139,12 @@ def run_translator(cfg, log):
     nob = 0
     info = {}
     for vf in tr.get("compile", []):
+        if ALT:
+            vf = vf.replace("gen/", GENNAME + "/", 1)
+            with open(os.path.join(COQ, vf)) as f:
+                txt = f.read()
+            with open(os.path.join(COQ, vf), "w") as f:
+                f.write(txt.replace(" gen.", " %s." % GENNAME))
         rc, o = sh(["coqc", "-noglob", "-Q", COQ, "CSS", os.path.join(COQ, vf)], cwd=COQ, timeout=tr.get("coq_timeout_s", 900))
         log.append(("generated " + vf, rc, o[-6000:]))
         for m in re.finditer(r"OBLIGATION\s+(\S+)\s+(ok|FAILED)(.*)", o):
@@ -415,8 +426,9 @@ def main(argv):
         "wall_s": round(time.time() - t0, 1),
         "violations": len(violations),
     }
-    os.makedirs(os.path.join(ROOT, "evidence"), exist_ok=True)
-    with open(os.path.join(ROOT, "evidence", pid + ".json"), "w") as f:
+    evdir = os.path.join(ROOT, "evidence") if not ALT else GEN
+    os.makedirs(evdir, exist_ok=True)
+    with open(os.path.join(evdir, pid + ".json"), "w") as f:
         json.dump(ev, f, indent=1, sort_keys=True, default=str)
         f.write("\n")
 
